@@ -26,6 +26,7 @@ def run(ctx):
     tables.rebuild_table_cover(ctx, s)
     tables.marker_codec(ctx, s)
     lifecycle.covered_events_removed(ctx, s)
+    lifecycle.all_tags_examined(ctx, s)
     marker_key_exact(ctx, s)
 
 
